@@ -68,15 +68,24 @@ static var p_even(var x)  { return (keyof(x) % 2 == 0) ? x : NULL; }
 static var p_pos(var x)   { return keyof(x) > 0 ? x : NULL; }
 static var p_mod3(var x)  { return mod3(keyof(x)) == 0 ? x : NULL; }
 static var p_lt3(var x)   { return keyof(x) < 3 ? x : NULL; }
-static var (*PREDS[])(var) = { p_true, p_false, p_even, p_pos, p_mod3, p_lt3 };
-#define NPRED 6
+/* predicates whose accepting answer is a non-NULL object OTHER than the argument (the contract of Filter is only
+ * "non-NULL = accept"): the shared flag object, a fresh box around the argument, a fresh copy with the same value */
+static var FLAG;
+static var f_box(var x);
+static var p_even_flag(var x) { return (keyof(x) % 2 == 0) ? FLAG : NULL; }
+static var p_pos_box(var x)   { return keyof(x) > 0 ? f_box(x) : NULL; }
+static var p_mod3_copy(var x) { return mod3(keyof(x)) == 0 ? mkint(keyof(x)) : NULL; }
+static var (*PREDS[])(var) = { p_true, p_false, p_even, p_pos, p_mod3, p_lt3, p_even_flag, p_pos_box, p_mod3_copy };
+#define NPRED 9
 static var f_id(var x)     { return x; }
 static var f_add100(var x) { return mkint(keyof(x) + 100); }
 static var f_neg(var x)    { return mkint(-keyof(x)); }
 static var f_sq(var x)     { int64_t k = keyof(x); return mkint((int64_t)((uint64_t)k * (uint64_t)k)); }
 static var f_box(var x)    { var xs[1]; xs[0] = x; return mktuple(xs, 1); }
-static var (*FUNS[])(var) = { f_id, f_add100, f_neg, f_sq, f_box };
-#define NFUN 5
+static var f_flag(var x)   { return FLAG; }                 /* the same shared object for every item */
+static var f_copy(var x)   { return mkint(keyof(x)); }      /* same value, another object */
+static var (*FUNS[])(var) = { f_id, f_add100, f_neg, f_sq, f_box, f_flag, f_copy };
+#define NFUN 7
 static var mkfunc(var (*f)(var)) { struct Function* fn = mkobj(Function, sizeof(struct Function)); fn->func = f; return fn; }
 
 /* ---- parsing + construction (bottom-up) */
@@ -289,10 +298,28 @@ static struct Ex* parse(void) {
   return NULL;
 }
 
+/* identities: the elements of the leaf containers (Array slots, List nodes, Tuple items, Table/Tree keys) are
+ * registered in the order the leaves (prefix order) yield them; a yielded Int that IS one of them prints as
+ * value@number, the shared flag object as 777@-1, any other object as its bare value */
+#define MAXREG 8192
+static var REG[MAXREG]; static int NREG;
+static int reg_find(var v) { for (int i = 0; i < NREG; i++) if (REG[i] == v) return i; return -2; }
+static void reg_leaf(var x, size_t cut) {
+  volatile size_t k = 0;
+  try {
+    var c = iter_init(x);
+    while (c isnt Terminal && k < cut && NREG < MAXREG) { if (reg_find(c) < 0) REG[NREG++] = c; k++; c = iter_next(x, c); }
+  } catch (e) { }
+}
+
 static void show_val(var v, int depth) {
   if (v == NULL) { P("NULL"); return; }
   var t = type_of(v);
-  if (t is Int) { P("%" PRId64, (int64_t)c_int(v)); return; }
+  if (t is Int) {
+    int id = v == FLAG ? -1 : reg_find(v);
+    if (id >= -1) P("%" PRId64 "@%d", (int64_t)c_int(v), id); else P("%" PRId64, (int64_t)c_int(v));
+    return;
+  }
   if (t is Tuple && depth < 8) {
     size_t n = len(v);
     P("(");
@@ -318,12 +345,18 @@ static void walk(var x, int backward, size_t cutoff) {
 
 static void one_case(char* line) {
   CUR = line; NNODES = 0; HIST_RAISED = 0;
+  if (!FLAG) FLAG = mkint(777);
   struct Ex* volatile e = NULL;
   volatile int built = 0;
   try { e = parse(); built = 1; } catch (ex) { P("build=E:%s", exn_name(ex)); }
   if (!built) return;
   if (!e) { P("BADCASE"); return; }
   var x = e->obj;
+  NREG = 0;
+  for (int j = 0; j < NNODES; j++) {
+    int kd = NODES[j]->kind;
+    if (kd == K_ARR || kd == K_LIST || kd == K_TUP || kd == K_TAB || kd == K_TREE) reg_leaf(NODES[j]->obj, 4000);
+  }
   volatile int64_t n = -1;
   try { n = (int64_t)len(x); P("len=%" PRId64, (int64_t)n); } catch (ex) { P("len=E:%s", exn_name(ex)); }
   size_t cutoff = n >= 0 ? (n > 5000 ? 10004 : 2 * (size_t)n + 4) : 2 * e->basesz + 4;
